@@ -43,4 +43,14 @@ theorem tag_entries_of_live (live : List SEv) (x : SEv) :
   unfold tagEntryCount
   rw [List.foldl_append]; rfl
 
+/-- **every access path agrees**: in every reachable state a retrievable event is returned by
+*every* filter (named by single letters, limit not binding) that its own fields satisfy — its id,
+its author, author+kind, each of its tag values alone or with its author or kind, a time window
+around it — whichever of the seven index plans that filter selects -/
+theorem self_findable (ops : List Op) (x : SEv) (hx : x ∈ (run {} ops).db.live) (f : FilterRec)
+    (hsl : SingleLetter f) (hm : eventMatches f x.e = true)
+    (hnl : (run {} ops).db.live.length < f.limit) (allow : Bool) (l secs now : Nat) (out : List SEv) (red : Bool)
+    (h : findEvents (run {} ops).db.live f allow l secs now (fun _ => .match) = .ok out red) : x ∈ out :=
+  (C05.findEvents_exact ops f hsl allow l secs now _ out red hnl h x).mpr ⟨hx, hm, rfl⟩
+
 end Pocket.C17
